@@ -91,3 +91,26 @@ package lr1
 //@   ensures result.Terminals[0] == result.EOFTerminal && result.Terminals[1] == result.ErrorTerminal
 //@   ensures result.EOFTerminal.Index == 0 && result.ErrorTerminal.Index == 1
 //@   modifies nothing
+//
+// ---- action cells (C04, C05) ---------------------------------------------------------------
+//
+// A cell (the actions of one state on one terminal) never holds two shift actions:
+// AddShift extends the shift there is, wherever it stands in the cell, and the production
+// it was called with ends up in that shift's list. resolveConflicts relies on it: a cell
+// [shift, reduce, shift] would be left unresolved.
+//@ pure func shiftsTo(a *array.Array[*Action], to *ItemSet) bool = !isnil(a) && (forall k int :: {a.elems[k]} 0 <= k && k < len(a.elems) ==> !isnil(a.elems[k]) && allocated(a.elems[k]) && (a.elems[k].Type == ActionShift ==> a.elems[k].ShiftState == to))
+//@ pure func oneShift(a *array.Array[*Action]) bool = forall j int :: {a.elems[j]} 0 <= j && j < len(a.elems) && a.elems[j].Type == ActionShift ==> (forall i int :: {a.elems[i]} 0 <= i && i < j ==> a.elems[i].Type != ActionShift)
+//
+//@ func ActionMap.AddShift
+//@   requires !isnil(m)
+//   no shift-shift conflict: a shift already in the cell goes to the same state
+//@   requires (!isnil(m.actions) && has(m.actions, terminal) && !isnil(m.actions[terminal])) ==> shiftsTo(m.actions[terminal], toState) && oneShift(m.actions[terminal])
+//@   ensures !isnil(m.actions) && has(m.actions, terminal)
+//@   ensures shiftsTo(m.actions[terminal], toState)
+//@   ensures oneShift(m.actions[terminal])
+//@   ensures exists k int :: 0 <= k && k < len(m.actions[terminal].elems) && m.actions[terminal].elems[k].Type == ActionShift && len(m.actions[terminal].elems[k].Prods) >= 1 && m.actions[terminal].elems[k].Prods[len(m.actions[terminal].elems[k].Prods) - 1] == prod
+//@   skip frame
+//@   let cell = actions.elems
+//@   call Array.Add 0 hint forall k int :: {cell[k]} 0 <= k && k < len(cell) ==> cell[k].Type != ActionShift
+//@   loop 0 invariant m == old(m) && !isnil(actions) && !isnil(m.actions) && has(m.actions, terminal) && m.actions[terminal] == actions && shiftsTo(actions, toState) && oneShift(actions)
+//@   loop 0 invariant forall k int :: {cell[k]} 0 <= k && k <= rangeindex ==> cell[k].Type != ActionShift
